@@ -13,6 +13,7 @@ LEVEL = 'exploration'
 BINARY = ['gp', 'sw', 'cp', 'acp', 'ip', 'sp', 'lc', 'rc', 'op', 'rp', 'proj', 'add', 'sub', 'div']
 UNARY = ['inv', 'neg', 'reverse', 'involute', 'conjugate', 'polarity', 'unpolarity', 'hodge', 'unhodge', 'normsq',
          'outerexp', 'outersin', 'outercos', 'outertan', 'pow2', 'pow3', 'dual', 'undual', 'grade1', 'asfull']
+POLY4 = ['neg', 'reverse', 'involute', 'conjugate', 'hodge', 'unhodge', 'outerexp', 'outersin', 'outercos', 'pow2', 'grade1', 'asfull']
 FLOATY = ['sqrt', 'norm', 'normalized', 'exp', 'pow0.5']
 FIELD = {'inv', 'div', 'outertan'}
 RULE = ('cases = (configuration, operator, base operand(s) = canonical sparse key set with generic coefficients, layout(s)); layouts = all '
@@ -43,6 +44,7 @@ def shards(tier, seed):
     d3q = [spaces.cfg_pqr(3, 0, 0), spaces.cfg_pqr(2, 0, 1)]
     d3 = [spaces.cfg_pqr(*t) for t in spaces.pqr(3)] + [spaces.cfg_sig(s) for s in spaces.mixed_orderings(3)]
     if tier == 'quick':
+        sh += mk('d=4: polynomial unary operators on a 24-subset menu (<=2 blades, grade >= 1) with every padding', spaces.cfg_pqr(4, 0, 0), 'un', ('menu24',), 8, only_ops=POLY4)
         for c in d3q:
             sh += mk('d=3: unary operators on subsets <=2 blades', c, 'un', ('S', 2), 6)
             if c.get('r') == 1:
@@ -112,6 +114,10 @@ def bases(shard, alg):
         allsub = binprog.expand(('S', 3), alg)
         step = max(1, len(allsub) // 8)
         out = allsub[1::step][:8]
+    elif spec[0] == 'menu24':
+        allsub = [t for t in binprog.expand(('S', 2), alg) if t and 0 not in t]
+        step = max(1, len(allsub) // 24)
+        out = allsub[::step][:24]
     else:
         out = binprog.expand(spec, alg)
     return out
@@ -142,6 +148,8 @@ def run_shard(shard):
         for ka in mine:
             for op in UNARY:
                 if only and op != only:
+                    continue
+                if shard.get('only_ops') and op not in shard['only_ops']:
                     continue
                 cls = R if op in FIELD else P
                 a0 = make_operand(alg, ka, ka, 'a', cls)
